@@ -149,8 +149,10 @@ impl RK4 {
 
             // Adjust last step so we land exactly on xend
             let mut last = false;
+            let mut h = h;
             if (x + 1.01 * h - xend) * h.signum() > 0.0 {
                 last = true;
+                h = xend - x;
             }
 
             // Stage computations
